@@ -45,6 +45,7 @@ namespace bxdecay0 {
 
   void Gd154low(i_random & prng_, event & event_, const int levelkev_)
   {
+    BXDECAY0_VERIF_SCOPE("scheme:Gd154low", levelkev_);
     // Subroutine describes the deexcitation process in Gd154 nucleus
     // after 2b- decay of Sm154 to the ground and excited 0+ and 2+ levels
     // of Gd154 (NNDC on 30.11.2018  and NDS 110(2008)2257).
